@@ -651,5 +651,251 @@ theorem packAll_spec {w k c : Nat} {fs : Bool} {radix : Nat} (hk : 1 ≤ k) (hc 
           simp
         · simp
 
+/-! ### the power-of-two arm: zero skipping, capacity test, result -/
+
+theorem skipZerosLoop_spec (fs : Bool) : ∀ (ms : List Nat), ∃ zs rest, ms = zs ++ rest ∧
+    (∀ b ∈ zs, byteToDigit fs b = 0) ∧ skipZerosLoop fs ms = rest.length ∧
+    (∀ b, rest.head? = some b → byteToDigit fs b ≠ 0)
+  | [] => ⟨[], [], rfl, by simp, rfl, by simp⟩
+  | b :: bs => by
+    unfold skipZerosLoop
+    by_cases h : byteToDigit fs b = 0
+    · obtain ⟨zs, rest, e1, e2, e3, e4⟩ := skipZerosLoop_spec fs bs
+      refine ⟨b :: zs, rest, by rw [e1]; rfl, ?_, by simp [h, e3], e4⟩
+      intro x hx
+      rcases List.mem_cons.mp hx with hx | hx
+      · rw [hx]; exact h
+      · exact e2 x hx
+    · exact ⟨[], b :: bs, rfl, by simp, by simp [h], by simpa using h⟩
+
+theorem overflow_cond (n c len : Nat) (hc : 1 ≤ c) :
+    (decide (len / c > n) || (len / c == n && len % c != 0)) = true ↔ n * c < len := by
+  have h1 := Nat.div_add_mod len c
+  have h2 := Nat.mod_lt len (show 0 < c by omega)
+  generalize len / c = q at *
+  generalize len % c = r at *
+  simp only [Bool.or_eq_true, decide_eq_true_eq, Bool.and_eq_true, beq_iff_eq, bne_iff_ne, ne_eq]
+  constructor
+  · rintro (h | ⟨h, h'⟩)
+    · have : c * (n + 1) ≤ c * q := Nat.mul_le_mul_left _ h
+      rw [Nat.mul_add, Nat.mul_one, Nat.mul_comm c n] at this; omega
+    · subst h; rw [Nat.mul_comm]; omega
+  · intro h
+    by_cases hq : q > n
+    · exact Or.inl hq
+    · right
+      have hqn : q = n := by
+        by_contra hne
+        have : c * (q + 1) ≤ c * n := Nat.mul_le_mul_left _ (by omega)
+        rw [Nat.mul_add, Nat.mul_one, Nat.mul_comm c n] at this; omega
+      subst hqn
+      refine ⟨rfl, ?_⟩
+      intro hr; subst hr; rw [Nat.mul_comm] at h; omega
+
+theorem digs_zero {fs : Bool} {zs : List Nat} (h : ∀ b ∈ zs, byteToDigit fs b = 0) :
+    digs fs zs = List.replicate zs.length 0 := by
+  rw [List.eq_replicate_iff]
+  refine ⟨by simp, ?_⟩
+  intro d hd
+  simp only [digs, List.mem_map] at hd
+  obtain ⟨b, hb, rfl⟩ := hd
+  exact h b hb
+
+theorem hasInvalid_take_of_false {fs : Bool} {radix : Nat} (k : Nat) {a : List Nat}
+    (h : hasInvalid fs radix a = false) : hasInvalid fs radix (a.take k) = false := by
+  have := hasInvalid_take_drop fs radix k a
+  rw [h] at this
+  cases h' : hasInvalid fs radix (a.take k)
+  · rfl
+  · rw [h'] at this; simp at this
+
+theorem pow2Arm_spec {w n k c : Nat} {fs be : Bool} {buf : List Nat} {radix off len0 : Nat}
+    (hk : 1 ≤ k) (hc : 1 ≤ c) (hw : w = k * c) (hrad : radix = 2 ^ k)
+    (hlog : ilog2 radix = k) (h256 : radix < 256) (hlen : len0 = buf.length - off)
+    (hoff : off ≤ buf.length) (hbe : be = true ∨ off = 0) :
+    ArmSpec w n fs radix ((if be then buf else buf.reverse).drop off)
+      (.ok (pow2Arm w n fs be buf radix off len0)) := by
+  have h256' : radix % 256 = radix := Nat.mod_eq_of_lt h256
+  have hr2 : 2 ≤ radix := by
+    rw [hrad]; calc 2 = 2 ^ 1 := rfl
+      _ ≤ 2 ^ k := Nat.pow_le_pow_right (by omega) hk
+  have hM : M w n = radix ^ (n * c) := by
+    unfold M; rw [hw, hrad, ← Nat.pow_mul]; congr 1; ring
+  have hwk : w / k = c := by rw [hw]; exact Nat.mul_div_cancel_left c (by omega)
+  generalize hview : (if be then buf else buf.reverse).drop off = view
+  have hmsf : (if be then buf.drop (buf.length - len0) else (buf.take len0).reverse) = view := by
+    rw [← hview]
+    cases be
+    · have : off = 0 := by simpa using hbe
+      subst this
+      simp [hlen]
+    · simp only [if_true]; congr 1; omega
+  obtain ⟨zs, rest, e1, e2, e3, e4⟩ := skipZerosLoop_spec fs view
+  have hls : (if be then buf.reverse else buf).take rest.length = rest.reverse := by
+    cases be
+    · have h0 : off = 0 := by simpa using hbe
+      subst h0
+      simp only [Bool.false_eq_true, if_false, List.drop_zero] at hview ⊢
+      have : buf = rest.reverse ++ zs.reverse := by
+        rw [← List.reverse_append, ← e1, ← hview, List.reverse_reverse]
+      rw [this, List.take_left' (by simp)]
+    · simp only [if_true] at hview ⊢
+      have : buf.reverse = rest.reverse ++ (buf.take off ++ zs).reverse := by
+        rw [← List.reverse_append, List.append_assoc, ← e1, ← hview, List.take_append_drop]
+      rw [this, List.take_left' (by simp)]
+  have hscan : hasInvalid fs radix view = false →
+      hasInvalid fs radix ((buf.drop off).take (n * c)) = false := by
+    intro hv
+    apply hasInvalid_take_of_false
+    cases be
+    · have h0 : off = 0 := by simpa using hbe
+      subst h0
+      simp only [Bool.false_eq_true, if_false, List.drop_zero] at hview ⊢
+      rw [← hview, hasInvalid_reverse] at hv; exact hv
+    · simp only [if_true] at hview; rw [hview]; exact hv
+  have hinvsplit : hasInvalid fs radix view = hasInvalid fs radix rest := by
+    rw [e1, hasInvalid_append]
+    have : hasInvalid fs radix zs = false := by
+      rw [hasInvalid_false_iff]; intro d hd
+      rw [digs_zero e2, List.mem_replicate] at hd
+      omega
+    rw [this]; simp
+  have hval : valueOf radix (digs fs view) = valueOf radix (digs fs rest) := by
+    rw [e1, digs_append, digs_zero e2, valueOf_replicate_zero]
+  unfold pow2Arm
+  simp only [hmsf, e3, hlog, hwk, hls, List.length_reverse]
+  have hcond := overflow_cond n c rest.length hc
+  constructor
+  · intro hv
+    have hvr : hasInvalid fs radix rest = false := by rw [← hinvsplit]; exact hv
+    have hdr : ∀ d ∈ digs fs rest, d < radix := by
+      have := hasInvalid_false_iff.mp hvr; rwa [h256'] at this
+    by_cases hov : n * c < rest.length
+    · rw [if_pos (hcond.mpr hov), hscan hv]
+      simp only [Bool.false_eq_true, if_false]
+      have hge : M w n ≤ valueOf radix (digs fs view) := by
+        rw [hval, hM]
+        match rest, e4, hov with
+        | [], _, hov => simp at hov
+        | b0 :: rest', e4, hov =>
+          have hd0 : byteToDigit fs b0 ≠ 0 := e4 b0 rfl
+          rw [digs_cons, valueOf_cons, digs_length]
+          simp only [List.length_cons] at hov
+          have h1 : radix ^ (n * c) ≤ radix ^ rest'.length :=
+            Nat.pow_le_pow_right (by omega) (by omega)
+          have h2 : 1 * radix ^ rest'.length ≤ byteToDigit fs b0 * radix ^ rest'.length :=
+            Nat.mul_le_mul_right _ (by omega)
+          omega
+      rw [if_neg (by omega)]
+    · have hcf : (decide (rest.length / c > n) || (rest.length / c == n && rest.length % c != 0))
+          = false := by
+        cases h : (decide (rest.length / c > n) || (rest.length / c == n && rest.length % c != 0))
+        · rfl
+        · exact absurd (hcond.mp h) hov
+      rw [hcf]
+      simp only [Bool.false_eq_true, if_false]
+      obtain ⟨ds, p1, p2, p3, p4⟩ := (packAll_spec (fs := fs) hk hc hw hrad h256' rest.reverse.length
+        rest.reverse (Nat.le_refl _)).1 (by rw [hasInvalid_reverse]; exact hvr)
+      simp only [List.length_reverse] at p1 p2
+      rw [p1]
+      simp only
+      have hdl : ds.length ≤ n := by
+        have : ds.length * c < (n + 1) * c := by rw [Nat.add_mul, Nat.one_mul]; omega
+        have := Nat.lt_of_mul_lt_mul_right this
+        omega
+      have hlt : valueOf radix (digs fs view) < M w n := by
+        rw [hval, hM]
+        have h1 := valueOf_lt (r := radix) (digs fs rest) hdr
+        rw [digs_length] at h1
+        have h2 : radix ^ rest.length ≤ radix ^ (n * c) := Nat.pow_le_pow_right (by omega) (by omega)
+        omega
+      rw [if_pos hlt]
+      congr 2
+      have hwf : WF w n (ds ++ List.replicate (n - ds.length) 0) := by
+        refine ⟨by simp; omega, ?_⟩
+        intro d hd
+        rcases List.mem_append.mp hd with h | h
+        · exact p3 d h
+        · rw [List.mem_replicate] at h; rw [h.2]; exact B_pos w
+      rw [eq_ofNat hwf, U_append, U_replicate_zero, p4, digs_reverse, valueOfLE_reverse, hval]
+      simp
+  · intro hv
+    have hvr : hasInvalid fs radix rest = true := by rw [← hinvsplit]; exact hv
+    by_cases hov : n * c < rest.length
+    · rw [if_pos (hcond.mpr hov)]
+      have hcontra : radix ^ view.length ≤ M w n → False := by
+        intro hs
+        rw [hM] at hs
+        have := (Nat.pow_le_pow_iff_right (by omega)).mp hs
+        have : rest.length ≤ view.length := by rw [e1]; simp
+        omega
+      cases hasInvalid fs radix ((buf.drop off).take (n * c))
+      · exact ⟨_, rfl, fun hs => (hcontra hs).elim⟩
+      · exact ⟨_, rfl, fun _ => rfl⟩
+    · have hcf : (decide (rest.length / c > n) || (rest.length / c == n && rest.length % c != 0))
+          = false := by
+        cases h : (decide (rest.length / c > n) || (rest.length / c == n && rest.length % c != 0))
+        · rfl
+        · exact absurd (hcond.mp h) hov
+      rw [hcf]
+      simp only [Bool.false_eq_true, if_false]
+      have := (packAll_spec (fs := fs) hk hc hw hrad h256' rest.reverse.length
+        rest.reverse (Nat.le_refl _)).2 (by rw [hasInvalid_reverse]; exact hvr)
+      simp only [List.length_reverse] at this
+      rw [this]
+      exact ⟨_, rfl, fun _ => rfl⟩
+
+/-! ### `from_buf_radix_internal` -/
+
+theorem B_ge_256 {w : Nat} (hw : 8 ≤ w) : 256 ≤ B w := by
+  unfold B; calc 256 = 2 ^ 8 := rfl
+    _ ≤ 2 ^ w := Nat.pow_le_pow_right (by omega) hw
+
+theorem fromBuf_lone_sign (w n : Nat) (fs be : Bool) (buf : List Nat) (radix : Nat)
+    (h : buf.length = 1) :
+    fromBufRadixInternal w n fs be buf radix true = .ok (.err .invalidDigit) := by
+  simp [fromBufRadixInternal, h]
+
+theorem fromBuf_spec {w n : Nat} {fs be : Bool} {buf : List Nat} {radix : Nat} {ls : Bool}
+    (hn : 1 ≤ n) (hw8 : 8 ≤ w) (hw4 : 4 ∣ w) (hr : 2 ≤ radix) (h256 : radix < 256)
+    (hbe : be = true ∨ ls = false) (hlen : (if ls then 1 else 0) < buf.length) :
+    ArmSpec w n fs radix ((if be then buf else buf.reverse).drop (if ls then 1 else 0))
+      (fromBufRadixInternal w n fs be buf radix ls) := by
+  have hB := B_ge_256 hw8
+  obtain ⟨q, hq⟩ := hw4
+  unfold fromBufRadixInternal
+  have h1 : (ls && buf.length == 1) = false := by
+    cases ls
+    · rfl
+    · simp only [if_true] at hlen; simp; omega
+  rw [h1]
+  simp only [Bool.false_eq_true, if_false]
+  have hoff : (if ls = true then 1 else 0) ≤ buf.length := by omega
+  have hbe' : be = true ∨ (if ls = true then 1 else 0) = 0 := by
+    rcases hbe with h | h
+    · exact Or.inl h
+    · right; simp [h]
+  have hne256 : (radix == 256) = false := by simp; omega
+  by_cases h2 : radix = 2
+  · subst h2
+    simp only [beq_self_eq_true, Bool.true_or, if_true]
+    exact pow2Arm_spec (k := 1) (c := w) (by omega) (by omega) (by omega) rfl (by decide)
+      (by omega) rfl hoff hbe'
+  by_cases h4 : radix = 4
+  · subst h4
+    simp only [beq_self_eq_true, Bool.true_or, Bool.or_true, if_true]
+    exact pow2Arm_spec (k := 2) (c := 2 * q) (by omega) (by omega) (by omega) rfl (by decide)
+      (by omega) rfl hoff hbe'
+  by_cases h16 : radix = 16
+  · subst h16
+    simp only [beq_self_eq_true, Bool.true_or, Bool.or_true, if_true]
+    exact pow2Arm_spec (k := 4) (c := q) (by omega) (by omega) (by omega) rfl (by decide)
+      (by omega) rfl hoff hbe'
+  have e2 : (radix == 2) = false := by simpa using h2
+  have e4 : (radix == 4) = false := by simpa using h4
+  have e16 : (radix == 16) = false := by simpa using h16
+  simp only [e2, e4, e16, hne256, Bool.or_self, Bool.false_eq_true, if_false]
+  exact generalArm_spec hn hr h256 (by omega) rfl (by omega)
+
 end Radix
 end Bnum
